@@ -624,6 +624,8 @@ def compose_case(rng, kind: Optional[str] = None) -> Dict[str, Any]:
         keep = rng.sample(outs, rng.randint(1, min(2, len(outs))))
     elif r < 0.4:
         keep = [rng.choice(i1 + i2)]  # usually a non-output: must be rejected
+    if rng.random() < 0.4:
+        c1, c2 = c2, c1  # the other call order takes the other assumption branch
     return {"wiring": kind, "style": style, "c1": c1, "c2": c2, "keep": keep, "simplify": rng.random() < 0.6,
             "order": rorder(rng)}
 
